@@ -24,7 +24,7 @@ m = {
     ],
     "checks": [],
     "not_applicable": [],
-    "notes": "hooks.add_only is false for exactly one place: in src/enc/worker_pool.rs the line `use std::sync::{Arc, Condvar, Mutex};` became two cfg alternatives and the two mentions of std::thread::{spawn, JoinHandle} go through aliases, so that the scheduler shim can be substituted under the guard; every other hook only adds code. Technique family: machine-checked proof in Lean 4 over hand-written executable models, tied to /repo by regeneration of data items and by a correspondence run on every check; see DESIGN.md.",
+    "notes": "hooks.add_only is false for exactly one place: in src/enc/worker_pool.rs the line `use std::sync::{Arc, Condvar, Mutex};` became two cfg alternatives and the two mentions of std::thread::{spawn, JoinHandle} go through aliases, so that the scheduler shim can be substituted under the guard; in src/enc/compress_fragment_two_pass.rs the condition `if ShouldCompress(..)` was split into `let should_compress = ShouldCompress(..); if should_compress` so that the guarded per-block log can record the answer; every other hook only adds code. Technique family: machine-checked proof in Lean 4 over hand-written executable models, tied to /repo by regeneration of data items and by a correspondence run on every check; see DESIGN.md.",
 }
 for pid in ALL:
     if pid in PROPS and PROPS[pid].get("claimed", True):
